@@ -25,8 +25,8 @@ are closed only after the files were copied (closing a mapping does not change t
 
 Private attributes touched
   read only : `_FileJournal__journalFile`, `_FileJournal__currentOffset`, `_FileJournal__meta`,
-              `_FileJournal__metaSaved`, `_FileJournal__journal` (not needed, never touched),
-              `_ResizableFile__mm` (is our proxy; to reach the real mapping when abandoning),
+              `_FileJournal__metaSaved`,
+              `_ResizableFile__mm` (it IS our proxy, put there by the code itself through the shim; not read),
               `_ResizableFile__f` (to close the descriptor when abandoning)
   written   : none on the objects; module globals `pysyncobj.journal.mmap`, `.open`, `.shutil`
               (restored after every call)
